@@ -388,6 +388,36 @@ pub fn run(name: &str) -> Option<bool> {
             let cluster = crate::outcome::run(&p, &bytes(&["one", "-ab"]));
             split.is_value() && split != cluster
         }
+        // C06: `sleep [SECONDS]` as an adjacent command next to trailing words: `sleep 1.5 w0`
+        // defaults SECONDS and hands `1.5` to the enclosing level
+        "adjacent_command_defaulted_word_masks_invalid_value" => {
+            let mut opts = OptSpec::plain(Spec::Seq(vec![Spec::wrap(
+                W::Fallback,
+                3,
+                pos(2, Ty::U32),
+            )]));
+            opts.descr = Some("d".into());
+            let sleep = Spec::Cmd(Box::new(CmdSpec {
+                id: 1,
+                names: vec!["sleep".into()],
+                shorts: vec![],
+                help: None,
+                adjacent: true,
+                opts,
+            }));
+            let rest = Spec::wrap(W::Many { catch: false }, 5, pos(4, Ty::Str));
+            let o = OptSpec::plain(Spec::Seq(vec![sleep, rest]));
+            let p = build_options(&o);
+            crate::outcome::run(&p, &bytes(&["sleep", "1.5", "w0"])).is_value()
+        }
+        // C02: `short('h').argument("HOST")`: `-h foo` accepted, `-hfoo` "ambiguous"
+        "builtin_help_letter_declared_as_argument" => {
+            let o = OptSpec::plain(Spec::Seq(vec![arg(1, Names::short('h'), Ty::Str)]));
+            let p = build_options(&o);
+            let split = crate::outcome::run(&p, &bytes(&["-h", "foo"]));
+            let joined = crate::outcome::run(&p, &bytes(&["-hfoo"]));
+            split.is_value() && split != joined
+        }
         // C04: `construct!(pure(..), flag).adjacent()` passes check_invariants and panics on every
         // run ("bpaf usage BUG: adjacent should start with a required argument")
         "adjacent_group_without_first_item_panics" => {
@@ -481,6 +511,22 @@ pub fn run(name: &str) -> Option<bool> {
             let o = OptSpec::plain(Spec::Seq(vec![g]));
             let p = build_options(&o);
             crate::outcome::run(&p, &bytes(&["1", "--tag", "2"])).is_value()
+        }
+        // C18: `long("alpha").env(V).argument::<u32>().many()` with V=zz refused `--alpha 1`
+        "invalid_variable_defeats_repeated_item_on_the_line" => {
+            let var = "BPAF_VERIF_WITNESS_F33";
+            std::env::set_var(var, "zz");
+            let mut names = Names::long("alpha");
+            names.envs = vec![var.to_string()];
+            let o = OptSpec::plain(Spec::Seq(vec![Spec::wrap(
+                W::Many { catch: false },
+                2,
+                arg(1, names, Ty::U32),
+            )]));
+            let p = build_options(&o);
+            let out = crate::outcome::run(&p, &bytes(&["--alpha", "1"]));
+            std::env::remove_var(var);
+            !out.is_value()
         }
         // C18: `construct!(alpha, env_only).optional()` given `--alpha 7` with the variable unset
         // ended with "--alpha is not expected in this context"
